@@ -547,12 +547,12 @@ func runC27(c *vlib.Ctx) {
 				case "panic":
 					c.NoteAdd("legacy_panics", 1)
 				}
-				if _, loaded := legacyExamples.LoadOrStore(fmt.Sprintf("%d/%s", it.f, outcome), true); !loaded {
+				if _, loaded := legacyExamples.LoadOrStore(fmt.Sprintf("%d/%s", f.tf, outcome), true); !loaded {
 					d, _, _ := strings.Cut(detail, "\n")
 					if len(d) > 400 {
 						d = d[:400]
 					}
-					c.Note(fmt.Sprintf("legacy_example_%s_%d", outcome, it.f), fmt.Sprintf("%s %s: offset %d of %d bytes, %s: %s", sstable.TableFormat(f.tf), f.short, it.off, len(f.data), pat, d))
+					c.Note(fmt.Sprintf("legacy_example_%s_format%d", outcome, f.tf), fmt.Sprintf("%s %s: offset %d of %d bytes, %s: %s", sstable.TableFormat(f.tf), f.short, it.off, len(f.data), pat, d))
 				}
 				continue
 			}
